@@ -19,9 +19,9 @@ pub mod a0 {
       relation r8(i64, i64);
       relation r9(i64);
       relation r10(i64, i64);
-      r2(v3) <-- let v0 = 3, r1(v1, v2, v0), let v3 = ((*v2) + 0);
-      r3(v1, v0) <-- r2(v0) if ((*v0) != 4), if let Some(v1) = Some((*v0)), r3(v0, v0) if ((*v0) != 2);
-      r4(v0) <-- let v0 = 2, r3(v0, v0), r2(v0) if (v0 != 6) let v1 = (v0 + 1), for v2 in 1..3;
+      r2(v3) <-- let v0 = 3, r1(v1, v2, v0), let v3 = ((*v2) + 0), if (v3 <= 6);
+      r3(v1, v0) <-- r2(v0) if ((*v0) != 4), if let Some(v1) = Some((*v0)), r3(v0, v0) if ((*v0) != 2), if (v1 <= 6);
+      r4(v0) <-- let v0 = 2, r3(v0, v0), r2(v0) if (v0 != 6) let v1 = (v0 + 1), for v2 in 1..3, if (v0 <= 6);
       r2(v0) <-- r0(v0, v1), r3(v1, v2), r3(v2, v3);
       r3(3, 3);
       r2(v1) <-- r1(v0, v1, 2), for v2 in 0..4, r3(((*v1) + 0), v3), if let Some(v4) = None::<i64>;
@@ -88,8 +88,8 @@ pub mod a8 {
       r3(((*v0) + 1), 3, v0) <-- r2(v0, 0) if ((*v0) < 4), if ((*v0) < 6);
       r3(v0, v1, v2) <-- r2(v0, v1) if ((*v0) < 2), r1(v1, v2) if ((*v2) != (*v1));
       r1(v0, (v2 + 1)) <-- r0(1), r0(v0) if ((*v0) != 5) let v1 = ((*v0) + 0), for v2 in [1, 1], if (v2 < 6);
-      r3(v1, 3, v2) <-- r2(v0, v1) if ((*v0) != 2) let v2 = ((*v0) + 0), r3(v1, v0, v3);
-      r0(v1) <-- r0(v0), r0(v0), r0(1) if ((*v0) <= 5), if let Some(v1) = None::<i64>;
+      r3(v1, 3, v2) <-- r2(v0, v1) if ((*v0) != 2) let v2 = ((*v0) + 0), r3(v1, v0, v3), if (v2 <= 6);
+      r0(v1) <-- r0(v0), r0(v0), r0(1) if ((*v0) <= 5), if let Some(v1) = None::<i64>, if (v1 <= 6);
       r4(v0) <-- r1(v0, v1), agg () = not() in r0((*v1));
       r5(v0) <-- r0(v0), r2(v0, v0), agg v21 = max(v20) in r3(_, v20, (*v0));
       r6(v0, (v21 as i64)) <-- r0(v0), agg v21 = count() in r0(_);
@@ -126,393 +126,6 @@ pub mod a8 {
    }
 }
 
-#[allow(unused, non_snake_case, clippy::all)]
-pub mod a16 {
-   use ascent::*;
-   use ascent::aggregators::*;
-   use ascent::lattice::{Dual, set::Set};
-   use crate::common::*;
-   ascent! {
-      pub struct Prog;
-      relation r0(i64, i64);
-      relation r1(i64, i64);
-      relation r2(i64, i64, i64);
-      relation r3(i64);
-      r2(v0, v1, v2) <-- r0(v0, v1), r0(((*v0) + 1), v2);
-      r2(v0, v8, v9) <-- if let Some(v9) = Some(2), r1(v0, v1), r0(v1, v9) let v8 = ((*v0) + 1);
-      r2(1, 2, 3);
-      r2(v2, v0, v1) <-- r0(v0, v1) if ((*v1) != 5) let v2 = ((*v0) + 0);
-      r3(v0) <-- r2(v0, v1, v2), agg () = not() in r2(_, _, _);
-   }
-   pub struct Inst { p: Prog, pool: Option<ascent::rayon::ThreadPool> }
-   pub fn make(pool: Option<usize>) -> Box<dyn Driver> {
-      let pool = pool.map(|n| ascent::rayon::ThreadPoolBuilder::new().num_threads(n).build().unwrap());
-      let p = match &pool { Some(pl) => pl.install(|| Default::default()), None => Default::default() };
-      Box::new(Inst { p, pool })
-   }
-   impl Driver for Inst {
-      fn load(&mut self, rel: usize, rows: &[Sexp], append: bool) -> Option<()> {
-         match rel {
-         0 => { let v: Vec<(i64,i64,)> = parse_rows(rows)?; if append { self.p.r0.extend(v) } else { self.p.r0 = v } },
-         1 => { let v: Vec<(i64,i64,)> = parse_rows(rows)?; if append { self.p.r1.extend(v) } else { self.p.r1 = v } },
-         2 => { let v: Vec<(i64,i64,i64,)> = parse_rows(rows)?; if append { self.p.r2.extend(v) } else { self.p.r2 = v } },
-         3 => { let v: Vec<(i64,)> = parse_rows(rows)?; if append { self.p.r3.extend(v) } else { self.p.r3 = v } },
-            _ => return None,
-         }
-         Some(())
-      }
-      fn run(&mut self) { match &self.pool { Some(pl) => { let p = &mut self.p; pl.install(|| p.run()) }, None => self.p.run() } }
-      fn run_here(&mut self) { self.p.run() }
-      fn run_timeout(&mut self, k: usize) -> Option<bool> { let _ = k; None }
-      fn dump(&self) -> String { vec![dump_rel(0, self.p.r0.iter().map(Row::render).collect()), dump_rel(1, self.p.r1.iter().map(Row::render).collect()), dump_rel(2, self.p.r2.iter().map(Row::render).collect()), dump_rel(3, self.p.r3.iter().map(Row::render).collect())].join(" | ") }
-      fn iters(&self) -> String { format!("iters {}", self.p.scc_iters.iter().map(|x| x.to_string()).collect::<Vec<_>>().join(" ")) }
-   }
-}
-
-#[allow(unused, non_snake_case, clippy::all)]
-pub mod a24 {
-   use ascent::*;
-   use ascent::aggregators::*;
-   use ascent::lattice::{Dual, set::Set};
-   use crate::common::*;
-   ascent! {
-      pub struct Prog;
-      relation r0(i64, i64);
-      relation r1(i64, i64);
-      relation r2(i64, i64, i64);
-      relation r3(i64, i64);
-      relation r4(i64, i64);
-      r2(v0, v2, v3) <-- r1(v0, v1), r1(v1, v2), r0(v2, v3);
-      r2(v0, v2, v2) <-- r2(v0, v1, 1), for v2 in 1..2;
-      r3(v32, v21) <-- r0(v0, v1), r0(v0, v32), agg v21 = sum(v20) in r1(v20, (*v32));
-      r4(v1, v21) <-- r0(v0, v1), agg v21 = sum(v20) in r1(v20, (*v0));
-   }
-   pub struct Inst { p: Prog, pool: Option<ascent::rayon::ThreadPool> }
-   pub fn make(pool: Option<usize>) -> Box<dyn Driver> {
-      let pool = pool.map(|n| ascent::rayon::ThreadPoolBuilder::new().num_threads(n).build().unwrap());
-      let p = match &pool { Some(pl) => pl.install(|| Default::default()), None => Default::default() };
-      Box::new(Inst { p, pool })
-   }
-   impl Driver for Inst {
-      fn load(&mut self, rel: usize, rows: &[Sexp], append: bool) -> Option<()> {
-         match rel {
-         0 => { let v: Vec<(i64,i64,)> = parse_rows(rows)?; if append { self.p.r0.extend(v) } else { self.p.r0 = v } },
-         1 => { let v: Vec<(i64,i64,)> = parse_rows(rows)?; if append { self.p.r1.extend(v) } else { self.p.r1 = v } },
-         2 => { let v: Vec<(i64,i64,i64,)> = parse_rows(rows)?; if append { self.p.r2.extend(v) } else { self.p.r2 = v } },
-         3 => { let v: Vec<(i64,i64,)> = parse_rows(rows)?; if append { self.p.r3.extend(v) } else { self.p.r3 = v } },
-         4 => { let v: Vec<(i64,i64,)> = parse_rows(rows)?; if append { self.p.r4.extend(v) } else { self.p.r4 = v } },
-            _ => return None,
-         }
-         Some(())
-      }
-      fn run(&mut self) { match &self.pool { Some(pl) => { let p = &mut self.p; pl.install(|| p.run()) }, None => self.p.run() } }
-      fn run_here(&mut self) { self.p.run() }
-      fn run_timeout(&mut self, k: usize) -> Option<bool> { let _ = k; None }
-      fn dump(&self) -> String { vec![dump_rel(0, self.p.r0.iter().map(Row::render).collect()), dump_rel(1, self.p.r1.iter().map(Row::render).collect()), dump_rel(2, self.p.r2.iter().map(Row::render).collect()), dump_rel(3, self.p.r3.iter().map(Row::render).collect()), dump_rel(4, self.p.r4.iter().map(Row::render).collect())].join(" | ") }
-      fn iters(&self) -> String { format!("iters {}", self.p.scc_iters.iter().map(|x| x.to_string()).collect::<Vec<_>>().join(" ")) }
-   }
-}
-
-#[allow(unused, non_snake_case, clippy::all)]
-pub mod a32 {
-   use ascent::*;
-   use ascent::aggregators::*;
-   use ascent::lattice::{Dual, set::Set};
-   use crate::common::*;
-   ascent! {
-      pub struct Prog;
-      relation r0(i64, i64, i64);
-      relation r1(i64, i64);
-      relation r2(i64, i64);
-      relation r3(i64, i64);
-      relation r4(i64, i64);
-      relation r5(i64, i64);
-      relation r6(i64, i64);
-      relation r7(i64, i64);
-      relation r8(i64, i64);
-      relation r9(i64);
-      r3(v0, v2) <-- r1(v0, v1), r4(v1, v2), r2(v2, v3);
-      r4(v4, v2) <-- r4(0, v0) if ((*v0) < 5) let v1 = ((*v0) + 0), r1(v2, v3), if let Some(v4) = Some(((*v3) + 0));
-      r5(v1, (v21 as i64)) <-- r2(v0, v1), agg v21 = count() in r2(_, _);
-      r6(v0, v21) <-- r2(v0, v1), agg v21 = max(v20) in r4(v20, _);
-      r7(v0, v21) <-- r4(v0, v1), agg v21 = max(v20) in r3(v20, (*v1));
-      r8(v2, v21) <-- r0(v0, v1, v2), agg v21 = max(v20) in r4((*v1), v20);
-      r9(v2) <-- r0(v0, v1, v2), agg () = not() in r6(_, _);
-   }
-   pub struct Inst { p: Prog, pool: Option<ascent::rayon::ThreadPool> }
-   pub fn make(pool: Option<usize>) -> Box<dyn Driver> {
-      let pool = pool.map(|n| ascent::rayon::ThreadPoolBuilder::new().num_threads(n).build().unwrap());
-      let p = match &pool { Some(pl) => pl.install(|| Default::default()), None => Default::default() };
-      Box::new(Inst { p, pool })
-   }
-   impl Driver for Inst {
-      fn load(&mut self, rel: usize, rows: &[Sexp], append: bool) -> Option<()> {
-         match rel {
-         0 => { let v: Vec<(i64,i64,i64,)> = parse_rows(rows)?; if append { self.p.r0.extend(v) } else { self.p.r0 = v } },
-         1 => { let v: Vec<(i64,i64,)> = parse_rows(rows)?; if append { self.p.r1.extend(v) } else { self.p.r1 = v } },
-         2 => { let v: Vec<(i64,i64,)> = parse_rows(rows)?; if append { self.p.r2.extend(v) } else { self.p.r2 = v } },
-         3 => { let v: Vec<(i64,i64,)> = parse_rows(rows)?; if append { self.p.r3.extend(v) } else { self.p.r3 = v } },
-         4 => { let v: Vec<(i64,i64,)> = parse_rows(rows)?; if append { self.p.r4.extend(v) } else { self.p.r4 = v } },
-         5 => { let v: Vec<(i64,i64,)> = parse_rows(rows)?; if append { self.p.r5.extend(v) } else { self.p.r5 = v } },
-         6 => { let v: Vec<(i64,i64,)> = parse_rows(rows)?; if append { self.p.r6.extend(v) } else { self.p.r6 = v } },
-         7 => { let v: Vec<(i64,i64,)> = parse_rows(rows)?; if append { self.p.r7.extend(v) } else { self.p.r7 = v } },
-         8 => { let v: Vec<(i64,i64,)> = parse_rows(rows)?; if append { self.p.r8.extend(v) } else { self.p.r8 = v } },
-         9 => { let v: Vec<(i64,)> = parse_rows(rows)?; if append { self.p.r9.extend(v) } else { self.p.r9 = v } },
-            _ => return None,
-         }
-         Some(())
-      }
-      fn run(&mut self) { match &self.pool { Some(pl) => { let p = &mut self.p; pl.install(|| p.run()) }, None => self.p.run() } }
-      fn run_here(&mut self) { self.p.run() }
-      fn run_timeout(&mut self, k: usize) -> Option<bool> { let _ = k; None }
-      fn dump(&self) -> String { vec![dump_rel(0, self.p.r0.iter().map(Row::render).collect()), dump_rel(1, self.p.r1.iter().map(Row::render).collect()), dump_rel(2, self.p.r2.iter().map(Row::render).collect()), dump_rel(3, self.p.r3.iter().map(Row::render).collect()), dump_rel(4, self.p.r4.iter().map(Row::render).collect()), dump_rel(5, self.p.r5.iter().map(Row::render).collect()), dump_rel(6, self.p.r6.iter().map(Row::render).collect()), dump_rel(7, self.p.r7.iter().map(Row::render).collect()), dump_rel(8, self.p.r8.iter().map(Row::render).collect()), dump_rel(9, self.p.r9.iter().map(Row::render).collect())].join(" | ") }
-      fn iters(&self) -> String { format!("iters {}", self.p.scc_iters.iter().map(|x| x.to_string()).collect::<Vec<_>>().join(" ")) }
-   }
-}
-
-#[allow(unused, non_snake_case, clippy::all)]
-pub mod a40 {
-   use ascent::*;
-   use ascent::aggregators::*;
-   use ascent::lattice::{Dual, set::Set};
-   use crate::common::*;
-   ascent! {
-      pub struct Prog;
-      relation r0(i64, i64);
-      relation r1(i64, i64);
-      relation r2(i64);
-      relation r3(i64, i64);
-      relation r4(i64, i64);
-      r3(v0, v1) <-- r1(v0, v1) if ((*v0) < 2), r1(v1, v2) if ((*v2) != (*v1));
-      r3(v0, v0) <-- r1(v0, v1), let v2 = (*v0);
-      r2(v0) <-- for v0 in [3, 3], r0(v1, v2);
-      r4(v1, v21) <-- r0(v0, v1), agg v21 = min(v20) in r2(v20);
-   }
-   pub struct Inst { p: Prog, pool: Option<ascent::rayon::ThreadPool> }
-   pub fn make(pool: Option<usize>) -> Box<dyn Driver> {
-      let pool = pool.map(|n| ascent::rayon::ThreadPoolBuilder::new().num_threads(n).build().unwrap());
-      let p = match &pool { Some(pl) => pl.install(|| Default::default()), None => Default::default() };
-      Box::new(Inst { p, pool })
-   }
-   impl Driver for Inst {
-      fn load(&mut self, rel: usize, rows: &[Sexp], append: bool) -> Option<()> {
-         match rel {
-         0 => { let v: Vec<(i64,i64,)> = parse_rows(rows)?; if append { self.p.r0.extend(v) } else { self.p.r0 = v } },
-         1 => { let v: Vec<(i64,i64,)> = parse_rows(rows)?; if append { self.p.r1.extend(v) } else { self.p.r1 = v } },
-         2 => { let v: Vec<(i64,)> = parse_rows(rows)?; if append { self.p.r2.extend(v) } else { self.p.r2 = v } },
-         3 => { let v: Vec<(i64,i64,)> = parse_rows(rows)?; if append { self.p.r3.extend(v) } else { self.p.r3 = v } },
-         4 => { let v: Vec<(i64,i64,)> = parse_rows(rows)?; if append { self.p.r4.extend(v) } else { self.p.r4 = v } },
-            _ => return None,
-         }
-         Some(())
-      }
-      fn run(&mut self) { match &self.pool { Some(pl) => { let p = &mut self.p; pl.install(|| p.run()) }, None => self.p.run() } }
-      fn run_here(&mut self) { self.p.run() }
-      fn run_timeout(&mut self, k: usize) -> Option<bool> { let _ = k; None }
-      fn dump(&self) -> String { vec![dump_rel(0, self.p.r0.iter().map(Row::render).collect()), dump_rel(1, self.p.r1.iter().map(Row::render).collect()), dump_rel(2, self.p.r2.iter().map(Row::render).collect()), dump_rel(3, self.p.r3.iter().map(Row::render).collect()), dump_rel(4, self.p.r4.iter().map(Row::render).collect())].join(" | ") }
-      fn iters(&self) -> String { format!("iters {}", self.p.scc_iters.iter().map(|x| x.to_string()).collect::<Vec<_>>().join(" ")) }
-   }
-}
-
-#[allow(unused, non_snake_case, clippy::all)]
-pub mod a48 {
-   use ascent::*;
-   use ascent::aggregators::*;
-   use ascent::lattice::{Dual, set::Set};
-   use crate::common::*;
-   ascent! {
-      pub struct Prog;
-      relation r0(i64, i64);
-      relation r1(i64, i64);
-      relation r2(i64, i64);
-      relation r3(i64, i64);
-      relation r4(i64, i64, i64);
-      relation r5(i64, i64, i64);
-      relation r6(i64, i64);
-      relation r7(i64);
-      r1(v1, v0) <-- r0(1, v0) if ((*v0) != 5) let v1 = ((*v0) + 0);
-      r2(2, 3) <-- r1(0, v0) if ((*v0) < 4);
-      r3(v3, ((*v1) + 1)) <-- if let Some(v0) = Some(1), r2(v1, v2), for v3 in [2, 0], if ((*v1) < 6);
-      r4(v0, v2, ((*v0) + 1)) <-- r3(v0, v1), r5(v1, v2, v3) if ((*v1) < 5), if ((*v2) != 5), if ((*v0) < 6);
-      r5(v2, (v0 + 1), v2) <-- if let Some(v0) = Some(2), r4(v1, 3, v0) if (v0 <= 5) let v2 = ((*v1) + 1), if ((*v1) < 1), if (v0 < 6);
-      r2(v0, v1) <-- r3(v0, v1), r0(v0, v0), r3(v1, v2);
-      r1(v1, v1) <-- r2(v0, v1);
-      r5(2, 0, 1);
-      r3(1, (v0 + 1)) <-- let v0 = 3, r2(v0, v1), if (v0 < 6);
-      r6(v0, v21) <-- r3(v0, v1), agg v21 = max(v20) in r5(v20, _, _);
-      r7(v1) <-- r1(v0, v1), r4(v1, v0, v0), agg v21 = max(v20) in r0(_, v20);
-   }
-   pub struct Inst { p: Prog, pool: Option<ascent::rayon::ThreadPool> }
-   pub fn make(pool: Option<usize>) -> Box<dyn Driver> {
-      let pool = pool.map(|n| ascent::rayon::ThreadPoolBuilder::new().num_threads(n).build().unwrap());
-      let p = match &pool { Some(pl) => pl.install(|| Default::default()), None => Default::default() };
-      Box::new(Inst { p, pool })
-   }
-   impl Driver for Inst {
-      fn load(&mut self, rel: usize, rows: &[Sexp], append: bool) -> Option<()> {
-         match rel {
-         0 => { let v: Vec<(i64,i64,)> = parse_rows(rows)?; if append { self.p.r0.extend(v) } else { self.p.r0 = v } },
-         1 => { let v: Vec<(i64,i64,)> = parse_rows(rows)?; if append { self.p.r1.extend(v) } else { self.p.r1 = v } },
-         2 => { let v: Vec<(i64,i64,)> = parse_rows(rows)?; if append { self.p.r2.extend(v) } else { self.p.r2 = v } },
-         3 => { let v: Vec<(i64,i64,)> = parse_rows(rows)?; if append { self.p.r3.extend(v) } else { self.p.r3 = v } },
-         4 => { let v: Vec<(i64,i64,i64,)> = parse_rows(rows)?; if append { self.p.r4.extend(v) } else { self.p.r4 = v } },
-         5 => { let v: Vec<(i64,i64,i64,)> = parse_rows(rows)?; if append { self.p.r5.extend(v) } else { self.p.r5 = v } },
-         6 => { let v: Vec<(i64,i64,)> = parse_rows(rows)?; if append { self.p.r6.extend(v) } else { self.p.r6 = v } },
-         7 => { let v: Vec<(i64,)> = parse_rows(rows)?; if append { self.p.r7.extend(v) } else { self.p.r7 = v } },
-            _ => return None,
-         }
-         Some(())
-      }
-      fn run(&mut self) { match &self.pool { Some(pl) => { let p = &mut self.p; pl.install(|| p.run()) }, None => self.p.run() } }
-      fn run_here(&mut self) { self.p.run() }
-      fn run_timeout(&mut self, k: usize) -> Option<bool> { let _ = k; None }
-      fn dump(&self) -> String { vec![dump_rel(0, self.p.r0.iter().map(Row::render).collect()), dump_rel(1, self.p.r1.iter().map(Row::render).collect()), dump_rel(2, self.p.r2.iter().map(Row::render).collect()), dump_rel(3, self.p.r3.iter().map(Row::render).collect()), dump_rel(4, self.p.r4.iter().map(Row::render).collect()), dump_rel(5, self.p.r5.iter().map(Row::render).collect()), dump_rel(6, self.p.r6.iter().map(Row::render).collect()), dump_rel(7, self.p.r7.iter().map(Row::render).collect())].join(" | ") }
-      fn iters(&self) -> String { format!("iters {}", self.p.scc_iters.iter().map(|x| x.to_string()).collect::<Vec<_>>().join(" ")) }
-   }
-}
-
-#[allow(unused, non_snake_case, clippy::all)]
-pub mod a56 {
-   use ascent::*;
-   use ascent::aggregators::*;
-   use ascent::lattice::{Dual, set::Set};
-   use crate::common::*;
-   ascent! {
-      pub struct Prog;
-      relation r0(i64, i64);
-      relation r1(i64, i64);
-      relation r2(i64);
-      relation r3(i64);
-      relation r4(i64, i64);
-      r1(0, ((*v0) + 1)) <-- r0(v0, v1), if ((*v0) < 6);
-      r2((v0 + 1)) <-- for v0 in 1..4, r0(v0, v0) if (v0 <= 2), if (v0 < 6);
-      r3(v0) <-- r1(1, v0), if ((*v0) <= 3), r2(((*v0) + 0)) if ((*v0) <= 5);
-      r3(v0) <-- if let Some(v9) = Some(1), r0(v0, v1), r0(v1, v9) let v8 = ((*v0) + 1);
-      r2(((*v2) + 1)) <-- if let Some(v0) = Some(0), r2(v0) if (v0 != 1) let v1 = (v0 + 1), r0(v2, v0) if (v1 <= 4) let v3 = ((*v2) + 1), if ((*v2) < 6);
-      r1(3, 0) <-- r1(1, v0) if ((*v0) <= 6), if let Some(v1) = Some((*v0)), r1(v2, 3) if ((*v2) != 2), let v3 = (*v2), r0(v4, v5) if ((*v2) < 2);
-      r2(2) <-- r1(v0, 2);
-      r3(v0) <-- r0(0, v0), for v1 in 1..1, r0(v0, v2);
-      r4(v0, v21) <-- r3(v0), agg v21 = sum(v20) in r0(v20, (*v0));
-   }
-   pub struct Inst { p: Prog, pool: Option<ascent::rayon::ThreadPool> }
-   pub fn make(pool: Option<usize>) -> Box<dyn Driver> {
-      let pool = pool.map(|n| ascent::rayon::ThreadPoolBuilder::new().num_threads(n).build().unwrap());
-      let p = match &pool { Some(pl) => pl.install(|| Default::default()), None => Default::default() };
-      Box::new(Inst { p, pool })
-   }
-   impl Driver for Inst {
-      fn load(&mut self, rel: usize, rows: &[Sexp], append: bool) -> Option<()> {
-         match rel {
-         0 => { let v: Vec<(i64,i64,)> = parse_rows(rows)?; if append { self.p.r0.extend(v) } else { self.p.r0 = v } },
-         1 => { let v: Vec<(i64,i64,)> = parse_rows(rows)?; if append { self.p.r1.extend(v) } else { self.p.r1 = v } },
-         2 => { let v: Vec<(i64,)> = parse_rows(rows)?; if append { self.p.r2.extend(v) } else { self.p.r2 = v } },
-         3 => { let v: Vec<(i64,)> = parse_rows(rows)?; if append { self.p.r3.extend(v) } else { self.p.r3 = v } },
-         4 => { let v: Vec<(i64,i64,)> = parse_rows(rows)?; if append { self.p.r4.extend(v) } else { self.p.r4 = v } },
-            _ => return None,
-         }
-         Some(())
-      }
-      fn run(&mut self) { match &self.pool { Some(pl) => { let p = &mut self.p; pl.install(|| p.run()) }, None => self.p.run() } }
-      fn run_here(&mut self) { self.p.run() }
-      fn run_timeout(&mut self, k: usize) -> Option<bool> { let _ = k; None }
-      fn dump(&self) -> String { vec![dump_rel(0, self.p.r0.iter().map(Row::render).collect()), dump_rel(1, self.p.r1.iter().map(Row::render).collect()), dump_rel(2, self.p.r2.iter().map(Row::render).collect()), dump_rel(3, self.p.r3.iter().map(Row::render).collect()), dump_rel(4, self.p.r4.iter().map(Row::render).collect())].join(" | ") }
-      fn iters(&self) -> String { format!("iters {}", self.p.scc_iters.iter().map(|x| x.to_string()).collect::<Vec<_>>().join(" ")) }
-   }
-}
-
-#[allow(unused, non_snake_case, clippy::all)]
-pub mod a64 {
-   use ascent::*;
-   use ascent::aggregators::*;
-   use ascent::lattice::{Dual, set::Set};
-   use crate::common::*;
-   ascent! {
-      pub struct Prog;
-      relation r0(i64, i64);
-      relation r1(i64, i64);
-      relation r2(i64);
-      relation r3(i64, i64);
-      relation r4(i64);
-      r2(v0) <-- if let Some(v9) = Some(2), r3(v0, v1), r3(v1, v9) let v8 = ((*v0) + 1);
-      r3(v2, v2) <-- r0(v0, v1) if ((*v1) < 1) let v2 = ((*v1) + 0);
-      r4(v1) <-- r1(v0, v1), r0(v32, v32), r1(v33, v33), agg () = not() in r0((*v0), 1);
-   }
-   pub struct Inst { p: Prog, pool: Option<ascent::rayon::ThreadPool> }
-   pub fn make(pool: Option<usize>) -> Box<dyn Driver> {
-      let pool = pool.map(|n| ascent::rayon::ThreadPoolBuilder::new().num_threads(n).build().unwrap());
-      let p = match &pool { Some(pl) => pl.install(|| Default::default()), None => Default::default() };
-      Box::new(Inst { p, pool })
-   }
-   impl Driver for Inst {
-      fn load(&mut self, rel: usize, rows: &[Sexp], append: bool) -> Option<()> {
-         match rel {
-         0 => { let v: Vec<(i64,i64,)> = parse_rows(rows)?; if append { self.p.r0.extend(v) } else { self.p.r0 = v } },
-         1 => { let v: Vec<(i64,i64,)> = parse_rows(rows)?; if append { self.p.r1.extend(v) } else { self.p.r1 = v } },
-         2 => { let v: Vec<(i64,)> = parse_rows(rows)?; if append { self.p.r2.extend(v) } else { self.p.r2 = v } },
-         3 => { let v: Vec<(i64,i64,)> = parse_rows(rows)?; if append { self.p.r3.extend(v) } else { self.p.r3 = v } },
-         4 => { let v: Vec<(i64,)> = parse_rows(rows)?; if append { self.p.r4.extend(v) } else { self.p.r4 = v } },
-            _ => return None,
-         }
-         Some(())
-      }
-      fn run(&mut self) { match &self.pool { Some(pl) => { let p = &mut self.p; pl.install(|| p.run()) }, None => self.p.run() } }
-      fn run_here(&mut self) { self.p.run() }
-      fn run_timeout(&mut self, k: usize) -> Option<bool> { let _ = k; None }
-      fn dump(&self) -> String { vec![dump_rel(0, self.p.r0.iter().map(Row::render).collect()), dump_rel(1, self.p.r1.iter().map(Row::render).collect()), dump_rel(2, self.p.r2.iter().map(Row::render).collect()), dump_rel(3, self.p.r3.iter().map(Row::render).collect()), dump_rel(4, self.p.r4.iter().map(Row::render).collect())].join(" | ") }
-      fn iters(&self) -> String { format!("iters {}", self.p.scc_iters.iter().map(|x| x.to_string()).collect::<Vec<_>>().join(" ")) }
-   }
-}
-
-#[allow(unused, non_snake_case, clippy::all)]
-pub mod a72 {
-   use ascent::*;
-   use ascent::aggregators::*;
-   use ascent::lattice::{Dual, set::Set};
-   use crate::common::*;
-   ascent! {
-      pub struct Prog;
-      relation r0(i64, i64, i64);
-      relation r1(i64, i64);
-      relation r2(i64, i64);
-      relation r3(i64, i64);
-      relation r4(i64, i64);
-      relation r5(i64, i64, i64);
-      relation r6(i64);
-      r5(v2, v2, 2) <-- r0(v0, 0, v1), if let Some(v2) = Some(((*v0) + 0));
-      r5(v1, v0, v0) <-- if let Some(v0) = Some(0), r5(v0, v0, (v0 + 1)) if (v0 < 1), r0(v0, 1, v1);
-      r2(v0, v2) <-- r4(v0, v1), r4(v1, v2), r4(v2, v3);
-      r3(v2, v0) <-- for v0 in 1..2, r4(v1, v0) if ((*v1) != 1), r5(0, ((*v1) + 1), v2) if ((*v1) < 3);
-      r2(v2, v0) <-- let v0 = 0, r0(v1, v2, v3);
-      r6(v33) <-- r0(v0, v1, v2), r0(v33, v34, v35), agg v21 = sum(v20) in r2(v20, _);
-   }
-   pub struct Inst { p: Prog, pool: Option<ascent::rayon::ThreadPool> }
-   pub fn make(pool: Option<usize>) -> Box<dyn Driver> {
-      let pool = pool.map(|n| ascent::rayon::ThreadPoolBuilder::new().num_threads(n).build().unwrap());
-      let p = match &pool { Some(pl) => pl.install(|| Default::default()), None => Default::default() };
-      Box::new(Inst { p, pool })
-   }
-   impl Driver for Inst {
-      fn load(&mut self, rel: usize, rows: &[Sexp], append: bool) -> Option<()> {
-         match rel {
-         0 => { let v: Vec<(i64,i64,i64,)> = parse_rows(rows)?; if append { self.p.r0.extend(v) } else { self.p.r0 = v } },
-         1 => { let v: Vec<(i64,i64,)> = parse_rows(rows)?; if append { self.p.r1.extend(v) } else { self.p.r1 = v } },
-         2 => { let v: Vec<(i64,i64,)> = parse_rows(rows)?; if append { self.p.r2.extend(v) } else { self.p.r2 = v } },
-         3 => { let v: Vec<(i64,i64,)> = parse_rows(rows)?; if append { self.p.r3.extend(v) } else { self.p.r3 = v } },
-         4 => { let v: Vec<(i64,i64,)> = parse_rows(rows)?; if append { self.p.r4.extend(v) } else { self.p.r4 = v } },
-         5 => { let v: Vec<(i64,i64,i64,)> = parse_rows(rows)?; if append { self.p.r5.extend(v) } else { self.p.r5 = v } },
-         6 => { let v: Vec<(i64,)> = parse_rows(rows)?; if append { self.p.r6.extend(v) } else { self.p.r6 = v } },
-            _ => return None,
-         }
-         Some(())
-      }
-      fn run(&mut self) { match &self.pool { Some(pl) => { let p = &mut self.p; pl.install(|| p.run()) }, None => self.p.run() } }
-      fn run_here(&mut self) { self.p.run() }
-      fn run_timeout(&mut self, k: usize) -> Option<bool> { let _ = k; None }
-      fn dump(&self) -> String { vec![dump_rel(0, self.p.r0.iter().map(Row::render).collect()), dump_rel(1, self.p.r1.iter().map(Row::render).collect()), dump_rel(2, self.p.r2.iter().map(Row::render).collect()), dump_rel(3, self.p.r3.iter().map(Row::render).collect()), dump_rel(4, self.p.r4.iter().map(Row::render).collect()), dump_rel(5, self.p.r5.iter().map(Row::render).collect()), dump_rel(6, self.p.r6.iter().map(Row::render).collect())].join(" | ") }
-      fn iters(&self) -> String { format!("iters {}", self.p.scc_iters.iter().map(|x| x.to_string()).collect::<Vec<_>>().join(" ")) }
-   }
-}
-
 fn main() {
-   common::main_loop(&[("a0", a0::make as common::Factory), ("a8", a8::make as common::Factory), ("a16", a16::make as common::Factory), ("a24", a24::make as common::Factory), ("a32", a32::make as common::Factory), ("a40", a40::make as common::Factory), ("a48", a48::make as common::Factory), ("a56", a56::make as common::Factory), ("a64", a64::make as common::Factory), ("a72", a72::make as common::Factory)]);
+   common::main_loop(&[("a0", a0::make as common::Factory), ("a8", a8::make as common::Factory)]);
 }
